@@ -55,13 +55,52 @@ def doomed_recursion(node, defs):
     return any(reach(d, name, set()) for name, d in defs.items() if d["k"] == "record")
 
 
+FLIP = [False]  # per unit: take the LAST alternative as the default answer of randint (see probe_default_terminates)
+
+
+class _ProbeTooLong(Exception):
+    pass
+
+
+class _Probe:
+    """A chooser that always answers 0 and gives up after 4000 draws."""
+
+    def __init__(self):
+        self.n = 0
+        self.prefix = ()
+        self.choices = []
+
+    def choose(self, label, n):
+        self.n += 1
+        if self.n > 4000:
+            raise _ProbeTooLong()
+        return 0
+
+
+def probe_default_terminates(u, parsed):
+    """Does generation terminate when every draw takes the default answer?  For a record that refers to itself through a
+    union the all-first-alternative script never ends when the self-reference is the union's FIRST branch (an outcome of
+    probability zero for a fair source); the exploration is then centred on the all-last-alternative script instead."""
+    saved = (u.random, u.uuid)
+    try:
+        u.random, u.uuid = ScriptedRandom(_Probe()), ScriptedUuid(_Probe())
+        u.generate_one(parsed)
+        return True
+    except (_ProbeTooLong, RecursionError):
+        return False
+    except Exception:
+        return True  # other failures are the exploration's business
+    finally:
+        u.random, u.uuid = saved
+
+
 class ScriptedRandom:
     def __init__(self, ch):
         self.ch = ch
 
     def randint(self, a, b):
         opts = []
-        for v in (a, b, (a + b) // 2, 0, 1, -1):
+        for v in ((b, a, (a + b) // 2, 0, 1, -1) if FLIP[0] else (a, b, (a + b) // 2, 0, 1, -1)):
             if a <= v <= b and v not in opts:
                 opts.append(v)
         return opts[self.ch.choose(f"randint({a},{b})", len(opts))]
@@ -145,6 +184,8 @@ def shape_schemas():
         for i in range(1, depth + 1):
             branches.append({"type": "record", "name": "T%d" % i, "fields": [{"name": "next", "type": "T%d" % (i - 1)}]})
         out.append(branches)
+    # a record that refers to itself through a union whose FIRST branch is the self-reference
+    out.append({"type": "record", "name": "Node", "fields": [{"name": "value", "type": "int"}, {"name": "next", "type": ["Node", "null"]}]})
     for nm in ("tagged_union", "credit_union", "union", "error_union", "my_record", "subarray", "bitmap", "prefixed", "enumeration"):
         k = {"type": "record", "name": nm, "namespace": "demo", "fields": [{"name": "x", "type": "int"}]}
         out.append({"type": "record", "name": "Holder_" + nm, "namespace": "demo", "fields": [
@@ -220,7 +261,20 @@ def has_decimal(s):
     return '"decimal"' in json.dumps(s)
 
 
+def strict_writes(fa, res, raw, parsed, v, info):
+    """Generated values name every field and nothing else, so the writers' strict options accept them too."""
+    for opt in ({"strict": True}, {"strict_allow_default": True}):
+        try:
+            fa.schemaless_writer(io.BytesIO(), parsed, copy.deepcopy(v), **opt)
+            fo = io.BytesIO()
+            fa.writer(fo, parsed, [copy.deepcopy(v)], sync_marker=b"g" * 16, **opt)
+        except Exception as e:
+            res.add(Violation("c20.accepted", f"generated-rejected-under-{'+'.join(opt)}:{type(e).__name__}", f"generated value {short(v, 200)} is rejected by the writers with {opt}: {type(e).__name__}: {str(e)[:120]} | {short(raw, 300)}", info))
+            return
+
+
 def check_value(fa, res, raw, parsed, node, defs, v, info):
+    strict_writes(fa, res, raw, parsed, v, info)
     ok_ref = conform.conforms(node, defs, v)
     if not ok_ref:
         res.add(Violation("c20.conform", "generated-not-conforming", f"generated value {short(v, 300)} does not conform (reference) | {short(info, 400)}", info))
@@ -270,6 +324,13 @@ def run_unit(i, tier):
     seen_values = set()
     saved = (u.random, u.uuid)
     info0 = {"schema": raw}
+    FLIP[0] = False
+    if not doomed_recursion(node, defs) and not probe_default_terminates(u, parsed):
+        FLIP[0] = True
+        if not probe_default_terminates(u, parsed):
+            FLIP[0] = False  # neither script terminates: let the exploration report it
+        else:
+            res.stats["schemas_explored_around_the_last_alternative_script"] += 1
 
     def run_n(n, prefix_holder):
         def run(ch):
